@@ -948,17 +948,18 @@ theorem ckpiece_grid_protocol (Pb : CKPIECE.Problem S U α ρ)
 /-- **the discretization follows the tree** [AF]: after every script the C13 invariant `DInv` holds
 with "motion `i` under `coordOf` of its state"; every tree motion sits in exactly the cell of its
 coordinate, no cell is empty, `size` is the number of motions; and the GridB invariants of C13 hold
-(well-formed cell list, neighbour counts and border flags, each cell in exactly one queue, external
+(well-formed cell list: distinct coordinates of `dim` entries, neighbour counts and border flags, each cell in exactly one queue, external
 iff border). -/
 theorem ckpiece_disc_inv (Pb : CKPIECE.Problem S U α ρ)
     (hcoord : ∀ s, (Pb.coordOf s).length = Pb.P.dim) (g : ρ) (starts : List S)
     (draws : List (CKPIECE.Draw U)) :
     let r := (CKPIECE.solve Pb g starts draws).final
     DInv Pb.P r.disc (CKPIECE.liveOf Pb r.tree) ∧
-    (∀ i mo, r.tree[i]? = some mo → ∀ e ∈ r.disc.cdata, (i ∈ e.2.motions ↔ e.1 = Pb.coordOf mo.state)) ∧
-    (∀ i mo, r.tree[i]? = some mo → ∃ e ∈ r.disc.cdata, e.1 = Pb.coordOf mo.state) ∧
+    (∀ (i : Nat) (mo : Motion S U), r.tree[i]? = some mo →
+      ∀ e ∈ r.disc.cdata, (i ∈ e.2.motions ↔ e.1 = Pb.coordOf mo.state)) ∧
+    (∀ (i : Nat) (mo : Motion S U), r.tree[i]? = some mo → ∃ e ∈ r.disc.cdata, e.1 = Pb.coordOf mo.state) ∧
     (∀ e ∈ r.disc.cdata, e.2.motions ≠ []) ∧ r.disc.size = r.tree.size ∧
-    WF Pb.P.dim r.disc.grid.cells ∧
+    (r.disc.grid.cells.map (·.coord)).Nodup ∧ (∀ c ∈ r.disc.grid.cells, c.coord.length = Pb.P.dim) ∧
     (∀ c ∈ r.disc.grid.cells, c.nbrs = (neighbors Pb.P.dim r.disc.grid.cells c.coord).length ∧
       (c.border = true ↔ c.nbrs < 2 * Pb.P.dim)) ∧
     (qids r.disc.grid.external ++ qids r.disc.grid.internal).Perm (r.disc.grid.cells.map (·.id)) ∧
@@ -969,7 +970,7 @@ theorem ckpiece_disc_inv (Pb : CKPIECE.Problem S U α ρ)
   have h : DInv Pb.P r.disc (CKPIECE.liveOf Pb r.tree) :=
     CKPIECE.kreach_inv ((CKPIECE.solve_final_inv Pb g starts draws).dreach hcoord)
   have hi := h.ginv
-  refine ⟨h, ?_, ?_, fun e he => (h.mot e he).2, ?_, ⟨hi.nodup, hi.len⟩, ?_, hi.queues_perm, hi.idnd,
+  refine ⟨h, ?_, ?_, fun e he => (h.mot e he).2, ?_, hi.nodup, hi.len, ?_, hi.queues_perm, hi.idnd,
     fun c hc => ⟨hi.ext_iff_border hc, hi.int_iff_interior hc⟩⟩
   · intro i mo hmo e he
     exact mem_cell_iff h ((CKPIECE.mem_liveOf Pb r.tree i _).2 ⟨mo, hmo, rfl⟩) he
@@ -1017,5 +1018,75 @@ theorem ckpiece_path_checks [DecidableEq S] (Pb : CKPIECE.Problem S U α ρ) (g 
   exact check_complete Pb.step Pb.valid _ s0 rest' e1 e2 e3 e4 h3
 
 end CKPIECE
+
+/-! non-vacuity for control::KPIECE1.  The theorems are arithmetic-free, so a toy integer instance of
+`Num` (integer division, constant `log`; only `+ - * / <` and the numerals matter here) is enough to
+let the kernel evaluate the model: one draw of control 1 for 6 steps from state 0 with cells of
+width 3 is split into motions of 2, 3 and 1 steps (the last one shorter than `minSteps = 2`), the
+third hits the goal. -/
+
+/-- toy `Num Int` for kernel evaluation of the arithmetic-free control flow (not a model of `double`) -/
+@[reducible] def numIntK : Num Int where
+  add := (· + ·)
+  sub := (· - ·)
+  mul := (· * ·)
+  div := (· / ·)
+  neg := (- ·)
+  lt := (· < ·)
+  le := (· ≤ ·)
+  ofNat n := Int.ofNat n
+  ofDec m e := Int.ofNat (m / 10 ^ e)
+  pi := 3
+  abs x := Int.ofNat x.natAbs
+  sqrt x := x
+  sin _ := 0
+  cos _ := 1
+  acos _ := 0
+  atan2 _ _ := 0
+  floor x := x
+  ceil x := x
+  fmod x y := x.tmod y
+  decLt a b := Int.decLt a b
+  decLe a b := Int.decLe a b
+  toInt x := x
+  ofInt i := i
+
+@[reducible] def logIntK : Disc.HasLog Int := ⟨fun _ => 0⟩
+
+def kpN : @CKPIECE.Problem Nat Nat Int Nat :=
+  { P := { dim := 1, enc := fun x => x, dec := fun x => x, eps := 0 },
+    step := stepN, valid := validN, inf := 1000, goal := fun s => (decide (s = 6), Int.ofNat (distN s 6)),
+    nullControl := 0, minSteps := 2, maxSteps := 8, coordOf := fun s => [Int.ofNat (s / 3)],
+    goalBias := 0, borderFraction := 1, goodScoreFactor := 1, badScoreFactor := 1, nClose := 3,
+    rng01 := fun g => (Int.ofNat (g % 2), g + 1), rngHalf := fun g hi => (g % (hi + 1), g + 1) }
+
+def kpRes : CKPIECE.Result Nat Nat Int Nat :=
+  @CKPIECE.solve Nat Nat Int Nat numIntK logIntK kpN 0 [0] [{ control := 1, steps := 6 }]
+
+/-- evaluated by the kernel (`decide +kernel`: plain kernel reduction, no compiled code, nothing assumed —
+the elaborator's `decide` cannot unfold the well-founded recursion of the heap model) -/
+example : kpRes.status = .exact ∧
+    kpRes.path.map (fun p => (p.states, p.controls, p.steps)) = some ([0, 2, 5, 6], [1, 1, 1], [2, 3, 1]) ∧
+    kpRes.final.disc.cdata.map (fun e => (e.1, e.2.motions)) = [([0], [0, 1]), ([1], [2]), ([2], [3])] ∧
+    kpRes.final.disc.size = 4 := by decide +kernel
+
+example : ∀ s, (kpN.coordOf s).length = kpN.P.dim := fun _ => rfl
+example : ∀ g hi, (kpN.rngHalf g hi).1 ≤ hi := fun _ hi => Nat.le_of_lt_succ (Nat.mod_lt _ (Nat.succ_pos hi))
+example := @ckpiece_path_replays Nat Nat Int Nat numIntK logIntK kpN 0 [0] [{ control := 1, steps := 6 }]
+example := @ckpiece_grid_protocol Nat Nat Int Nat numIntK logIntK kpN (fun _ => rfl) 0 [0] [{ control := 1, steps := 6 }]
+example := @ckpiece_disc_inv Nat Nat Int Nat numIntK logIntK kpN (fun _ => rfl) 0 [0] [{ control := 1, steps := 6 }]
+
+/-- `findNextMotion`: the last index of the run of equal coordinates starting at `index` -/
+example : CKPIECE.findNext [[0], [0], [1], [1], [1], [2]] 0 6 = 1 ∧
+    CKPIECE.findNext [[0], [0], [1], [1], [1], [2]] 2 6 = 4 ∧
+    CKPIECE.findNext [[0], [0], [1], [1], [1], [2]] 5 6 = 5 := by decide
+
+/-- `CloseSamples`: sorted insertion, an equal distance collides (std::set), the farthest is dropped
+when full, `selectMotion` re-inserts the closest with an inflated distance -/
+example : (@CKPIECE.closeInsert Int numIntK [⟨[0], 0, 3⟩, ⟨[1], 1, 7⟩] ⟨[2], 2, 5⟩).map (·.motion) = [0, 2, 1] ∧
+    (@CKPIECE.closeInsert Int numIntK [⟨[0], 0, 3⟩, ⟨[1], 1, 7⟩] ⟨[2], 2, 7⟩).map (·.motion) = [0, 1] ∧
+    (@CKPIECE.closeConsider Int numIntK 2 [⟨[0], 0, 3⟩, ⟨[1], 1, 7⟩] ⟨[2], 2, 5⟩).map (·.motion) = [0, 2] ∧
+    (@CKPIECE.closeSelect Int numIntK 2 [⟨[0], 0, 3⟩, ⟨[1], 1, 7⟩]).map (fun r => (r.1, r.2.1, r.2.2.map (·.motion))) =
+      some (0, [0], [0, 1]) := by decide
 
 end OmplModel.Props.C02
